@@ -1411,13 +1411,21 @@ class ThreadsafeForwardingResult(TestResult):
         self._test_start = self._now()
         super().startTest(test)
 
+    def stopTest(self, test):
+        super().stopTest(test)
+        # tags() made after the test's outcome were local to it and were
+        # never forwarded: they end with the test.
+        self._test_tags = set(), set()
+
     def wasSuccessful(self):
         return self.result.wasSuccessful()
 
     def tags(self, new_tags, gone_tags):
         """See `TestResult`."""
         super().tags(new_tags, gone_tags)
-        if self._test_start is not None:
+        # A test is current from startTest to stopTest (its context has a
+        # parent), also after its outcome has reset _test_start.
+        if self._test_start is not None or self._tags.parent is not None:
             self._test_tags = _merge_tags(self._test_tags, (new_tags, gone_tags))
         else:
             self._global_tags = _merge_tags(self._global_tags, (new_tags, gone_tags))
